@@ -142,6 +142,53 @@ fn run_const(t: &Tab, toks: &[u8]) -> Result<Value, String> {
     })
 }
 
+/// Registration sequences (a rule may be registered more than once): (rule, affix, level) in registration order.
+type Regs = Vec<(usize, String, u32)>;
+
+fn regs_of(v: &Value) -> Regs {
+    v.as_array()
+        .unwrap()
+        .iter()
+        .map(|e| (e["rule"].as_u64().unwrap() as usize, e["affix"].as_str().unwrap().to_string(), e["lvl"].as_u64().unwrap() as u32))
+        .collect()
+}
+
+fn reg_levels(r: &Regs) -> Vec<Vec<usize>> {
+    let max = r.iter().map(|e| e.2).max().unwrap_or(0);
+    (1..=max).map(|l| (0..r.len()).filter(|i| r[*i].2 == l).collect::<Vec<_>>()).filter(|v: &Vec<usize>| !v.is_empty()).collect()
+}
+
+fn run_pratt_regs(r: &Regs, toks: &[u8]) -> Result<Value, String> {
+    let input = "x".repeat(toks.len());
+    guarded(|| {
+        let mut p = PrattParser::<u8>::new();
+        for lv in reg_levels(r) {
+            p = p.op(chain(lv.iter().map(|i| mk_op(r[*i].0, &r[*i].1)).collect(), toks.len() + r.len()));
+        }
+        run_map!(p, pairs_of(&input, toks), twice)
+    })
+}
+
+fn run_const_regs(r: &Regs, toks: &[u8]) -> Result<Value, String> {
+    let input = "x".repeat(toks.len());
+    guarded(|| {
+        let mut ops: Vec<(Op<u8>, bool)> = vec![];
+        for lv in reg_levels(r) {
+            for (j, i) in lv.iter().enumerate() {
+                ops.push((mk_op(r[*i].0, &r[*i].1), j == 0));
+            }
+        }
+        match ops.len() {
+            2 => const_run::<2>(ops, &input, toks),
+            3 => const_run::<3>(ops, &input, toks),
+            4 => const_run::<4>(ops, &input, toks),
+            5 => const_run::<5>(ops, &input, toks),
+            6 => const_run::<6>(ops, &input, toks),
+            _ => json!("skipped"),
+        }
+    })
+}
+
 fn run_climber(t: &Tab, toks: &[u8]) -> Result<Value, String> {
     let input = "x".repeat(toks.len());
     guarded(|| {
@@ -185,6 +232,7 @@ pub fn replay(args: &[String]) {
     silence_panics();
     let path = arg(args, "--cases").expect("--cases");
     let (mut n, mut nclimb, mut nmacro, mut nm) = (0u64, 0u64, 0u64, 0u64);
+    let (mut ndup, mut dup_drift) = (0u64, 0u64);
     let mut mism = vec![];
     let macro_table: Tab = vec![("pre".into(), 1), ("inl".into(), 1), ("inr".into(), 2), ("post".into(), 3)];
     for line in read_lines(&path) {
@@ -192,6 +240,25 @@ pub fn replay(args: &[String]) {
         let t = table_of(&rec["table"]);
         let toks: Vec<u8> = rec["toks"].as_array().unwrap().iter().map(|x| x.as_u64().unwrap() as u8).collect();
         n += 1;
+        if !rec["regs"].is_null() {
+            // one rule registered twice: the property only says that the two parsers agree on the same table;
+            // which registration is in force is the model's reading (the last one) and a joint departure from
+            // it is counted, not reported
+            ndup += 1;
+            let r = regs_of(&rec["regs"]);
+            let a = val(&run_pratt_regs(&r, &toks));
+            let b = val(&run_const_regs(&r, &toks));
+            if a != b {
+                nm += 1;
+                if mism.len() < 20 {
+                    mism.push(json!({"parser": "ConstPrattParser vs PrattParser, same registrations", "regs": rec["regs"], "table": rec["table"],
+                                     "toks": rec["toks"], "expected": rec["tree"], "observed": {"pratt": a, "const_pratt": b}}));
+                }
+            } else if a != rec["tree"] {
+                dup_drift += 1;
+            }
+            continue;
+        }
         let mut bad = vec![];
         let a = run_pratt(&t, &toks);
         if val(&a) != rec["tree"] {
@@ -222,7 +289,11 @@ pub fn replay(args: &[String]) {
             }
         }
     }
-    println!("{}", json!({"cases": n, "climber_cases": nclimb, "macro_cases": nmacro, "mismatch_count": nm, "mismatches": mism}));
+    println!(
+        "{}",
+        json!({"cases": n, "climber_cases": nclimb, "macro_cases": nmacro, "dup_cases": ndup, "dup_joint_departures": dup_drift,
+               "mismatch_count": nm, "mismatches": mism})
+    );
 }
 
 fn gen_seq(rng: &mut StdRng, t: &Tab, maxlen: usize) -> Vec<u8> {
